@@ -1,6 +1,7 @@
 import NitroVerif.Lemmas.RoutesConcrete
 import NitroVerif.Lemmas.RoutesOpTypesConcrete
 import NitroVerif.Lemmas.RoutesSpec
+import NitroVerif.Lemmas.RoutesSchemaDecls
 /-!
 # C15 — the CONCRETE checker / printer models give the same results on the two routes
 
@@ -54,6 +55,15 @@ theorem C15_lookups_factor {G₁ G₂ : Gql.Schema} {s₁ s₂ : SchemaIR.Schema
     (he : s₁ ≃ s₂) (n₁ : NamesNodup s₁) (n₂ : NamesNodup s₂) (r₁ : RootsOk s₁) (r₂ : RootsOk s₂) :
     AgreeRoots G₁ G₂ := agreeRoots_of_equiv h₁ h₂ he n₁ n₂ r₁ r₂
 
+/-- the hypotheses of `C15_lookups_factor` are satisfiable by two different views of two different schema values
+    (the two routes of `exampleM`, defined below) -/
+theorem C15_lookups_factor_hypotheses (M : TsDoc) (h : ValidParsed M) :
+    Sees (sdlView M) (CliSchema.routeSdl M) ∧ Sees (jsonView M) (Routes.jsonSide M) ∧
+    CliSchema.routeSdl M ≃ Routes.jsonSide M ∧ NamesNodup (CliSchema.routeSdl M) ∧ NamesNodup (Routes.jsonSide M) ∧
+    RootsOk (CliSchema.routeSdl M) ∧ RootsOk (Routes.jsonSide M) :=
+  ⟨sees_sdl M h.parsed, sees_json M, (Routes.routes_equiv M h.resolved).symm, namesNodup_sdl M, namesNodup_json M,
+    rootsOk_sdl M h.rootNames, rootsOk_json M h.rootNames⟩
+
 /-- For every valid `M`, the two routes' views answer the checker's lookups alike. -/
 theorem C15_routes_lookups_agree (M : TsDoc) (h : ValidParsed M) : AgreeRoots (sdlView M) (jsonView M) :=
   agreeRoots_routes M h
@@ -82,6 +92,18 @@ theorem exampleM_valid : ValidParsed exampleM :=
   ⟨⟨by decide, by decide, by decide, by decide, by decide⟩, by decide, by decide, by decide⟩
 
 /-! ### Goal 2 — the operation checker -/
+
+/-- **The operation checker model depends on the lookups only**: on ANY two document views that answer the lookups
+    alike (`AgreeRoots`), the first of which has resolvable references (`Closed`), `check_operation_document` returns the
+    same diagnostics for every document within the exemptions (`NoRootType` / `UnknownType` of an operation kind without
+    root type counted as one).  This is `C15_check_eq` for the concrete checker model. -/
+theorem C15_checkOp_views_eq {G₁ G₂ : Gql.Schema} (hA : AgreeRoots G₁ G₂) (hC : Closed G₁) (D : Doc)
+    (hD : docOk D = true) : (checkOp G₁ D).map normRoot = (checkOp G₂ D).map normRoot :=
+  checkOp_congr_norm hA hC D hD
+
+/-- the hypotheses are satisfiable by two different views -/
+example : AgreeRoots (sdlView exampleM) (jsonView exampleM) ∧ Closed (sdlView exampleM) :=
+  ⟨agreeRoots_routes _ exampleM_valid, closed_of_closedB exampleM_valid.closed⟩
 
 /-- **The operation checker model returns the same diagnostics on the two routes**, for every valid `M` and every
     operation document `D` that names no `__*` type and uses no `@nitrogql_ts_type` directive (`docOk`, the two
@@ -220,6 +242,92 @@ theorem C15_resultTree_routes_eq (M : TsDoc) (h : ValidParsed M) (D : Doc) (hD :
 theorem C15_opDecls_routes_eq (M : TsDoc) (h : ValidParsed M) (o : Opts) (D : Doc) (hD : docOk D = true) :
     opDecls (sdlView M) o D = opDecls (jsonView M) o D :=
   opDecls_routes M h o D hD
+
+/-! ### Goal 3 (second half) — the schema declaration printer (`Model/SchemaDecls.lean`)
+
+On the SDL route `SchemaTypePrinter` is given `docSdl M = M ++ builtins`, on the JSON route
+`docJson M = type_system_to_ast (schema value read from the introspection result)`. -/
+
+/-- **Same aliases.** Every type definition of the SDL document has its twin (`twin td` = the definition after
+    `ast_to_type_system` and `type_system_to_ast`) among the definitions of the JSON document, and every definition of
+    the JSON document whose name does not start with `__` is such a twin: the JSON route declares exactly the aliases
+    of the SDL route plus the `__*` introspection types (in a different order). -/
+theorem C15_schemaDecls_same_aliases (M : TsDoc) (h : ValidParsed M) (hb : UserNotBuiltin M) :
+    (∀ td ∈ SchemaDecls.typeDefsOf (docSdl M), twin td ∈ SchemaDecls.typeDefsOf (docJson M)) ∧
+    (∀ td' ∈ SchemaDecls.typeDefsOf (docJson M), isIntrospectionName td'.name = false →
+      ∃ td ∈ SchemaDecls.typeDefsOf (docSdl M), td' = twin td) :=
+  ⟨fun td htd => twin_mem M h.resolved.typeNames hb (user_nonintro M h) td htd, fun td' h' hi => twin_surj M td' h' hi⟩
+
+/-- **Same declaration per alias.** For every configuration in which no scalar relies on `@nitrogql_ts_type` alone
+    (`ScalarsConfigured`; the directive does not survive introspection), every namespace (`__OperationInput`,
+    `__OperationOutput`, `__ResolverInput`, `__ResolverOutput`) and every type definition `td` of the SDL document, the
+    statements printed for `td` on the SDL route EQUAL those printed for its twin on the JSON route: the type-level
+    JSDoc, the local name (`__tmp_` renaming against the same bag of identifiers), the scalar's configured TypeScript
+    type, object fields with their nullability / list structure, interface implementers in the same order, union
+    members, enum values, input fields with optionality — or the same "scalar without TypeScript type" error. -/
+theorem C15_schemaDecls_routes_eq (c : DeclCfg.Cfg) (M : TsDoc) (h : DeclsOk c M) (t : DeclCfg.Target) (td : TypeDef) :
+    SchemaDecls.printType (SchemaDecls.Ctx.new c (docSdl M) t) td
+      = SchemaDecls.printType (SchemaDecls.Ctx.new c (docJson M) t) (twin td) :=
+  printType_routes h t td
+
+/-- the body of each namespace: printing the twins of the SDL document's definitions on the JSON route, in the SDL
+    order, gives the namespace body of the SDL route (the JSON route's own body is a reordering of it, interleaved with
+    the statements of the `__*` types — `C15_schemaDecls_same_aliases`) -/
+theorem C15_schemaDecls_namespace_eq (c : DeclCfg.Cfg) (M : TsDoc) (h : DeclsOk c M) (t : DeclCfg.Target) :
+    SchemaDecls.namespaceBody (SchemaDecls.Ctx.new c (docSdl M) t) (SchemaDecls.typeDefsOf (docSdl M))
+      = SchemaDecls.namespaceBody (SchemaDecls.Ctx.new c (docJson M) t) ((SchemaDecls.typeDefsOf (docSdl M)).map twin) :=
+  namespaceBody_routes h t _
+
+/-- … and so are the top-level representative alias and the enum runtime constant -/
+theorem C15_schemaDecls_representative_eq (c : DeclCfg.Cfg) (M : TsDoc) (h : DeclsOk c M) (td : TypeDef) :
+    SchemaDecls.representative (SchemaDecls.Ctx.new c (docSdl M) .operationOutput) td
+      = SchemaDecls.representative (SchemaDecls.Ctx.new c (docJson M) .operationOutput) (twin td) :=
+  representative_routes h td
+
+/-- **The schema declaration file is produced on one route iff it is produced on the other** (`okB` = the printer
+    did not stop with "scalar without a TypeScript type"): the two documents define the same scalars, and the extra `__*`
+    definitions of the JSON route are objects and enums. -/
+theorem C15_schemaFile_produced_iff (c : DeclCfg.Cfg) (M : TsDoc) (h : DeclsOk c M) :
+    okB (SchemaDecls.schemaFile c (docSdl M)) = okB (SchemaDecls.schemaFile c (docJson M)) :=
+  schemaFile_ok_routes h
+
+/-- the hypotheses are satisfiable: `exampleM` with a scalar mapping whose identifier clashes with a type name -/
+example : DeclsOk { scalars := [("ID", .single "U | string")] } exampleM :=
+  ⟨exampleM_valid, by decide, by decide⟩
+
+/-- The exemption for `@nitrogql_ts_type` is necessary: a scalar whose TypeScript type comes from the directive only
+    is printed on the SDL route and is a "scalar without TypeScript type" error on the JSON route. -/
+theorem C15_schemaDecls_directive_scalar_counterexample :
+    let date : TypeDef := { kind := .scalar, name := "Date", dirs := [{ name := "nitrogql_ts_type", args :=
+      [("resolverInput", {}, .str "Date" {}), ("resolverOutput", {}, .str "Date" {}),
+       ("operationInput", {}, .str "string" {}), ("operationOutput", {}, .str "string" {})] }] }
+    let M : TsDoc := [.typeDef date,
+      .typeDef { kind := .object, name := "Query", fields := [{ name := "d", ty := .named "Date" {} }] }]
+    ValidParsed M ∧ UserNotBuiltin M ∧ ¬ ScalarsConfigured {} M ∧
+    (SchemaDecls.printType (SchemaDecls.Ctx.new {} (docSdl M) .operationOutput) date).toOption.isSome = true ∧
+    (match SchemaDecls.printType (SchemaDecls.Ctx.new {} (docJson M) .operationOutput) (twin date) with
+      | .error e => e
+      | .ok _ => "") = "Date" := by
+  refine ⟨⟨⟨by decide, by decide, by decide, by decide, by decide⟩, by decide, by decide, by decide⟩, by decide,
+    by decide, by decide, by decide⟩
+
+/-! ### the composition with the reader -/
+
+/-- **`C15_routes_agree` for the concrete models.** For every valid `M`: reading the specification's introspection
+    result of `M` the way the CLI does succeeds with a schema value `s`, and against `s` (document view `ofIR s`, AST
+    `type_system_to_ast s`) the operation checker model gives the same diagnostics, the operation type printer model
+    the same declarations, and the schema declaration printer model the same statements per alias, as against the SDL
+    document `M` + built-ins. -/
+theorem C15_routes_agree_concrete (M : TsDoc) (h : ValidParsed M) :
+    ∃ s, CliSchema.routeJson (IntrospectSpec.introspectSpec M) = .ok s ∧
+      (∀ D, docOk D = true → (checkOp (sdlView M) D).map normRoot = (checkOp (ofIR s) D).map normRoot) ∧
+      (∀ o D, docOk D = true → opDecls (sdlView M) o D = opDecls (ofIR s) o D) ∧
+      (∀ c t td, UserNotBuiltin M → ScalarsConfigured c M →
+        SchemaDecls.printType (SchemaDecls.Ctx.new c (M ++ CliSchema.builtins) t) td
+          = SchemaDecls.printType (SchemaDecls.Ctx.new c (schemaToAst s) t) (twin td)) := by
+  obtain ⟨q, hq⟩ := Option.isSome_iff_exists.mp h.resolved.query
+  exact ⟨Routes.jsonSide M, Routes.routeJson_spec M q hq, fun D hD => C15_checkOp_routes_eq M h D hD,
+    fun o D hD => C15_opDecls_routes_eq M h o D hD, fun c t td hb hs => printType_routes ⟨h, hb, hs⟩ t td⟩
 
 /-! ### Goal 4 — the SDL half against the specification -/
 
